@@ -81,6 +81,115 @@ def _is_variable_index(ctx, fn: FuncInfo, name: str) -> bool:
     return False
 
 
+def check_build_problem(ctx) -> None:
+    """HRSampler.__build_problem evaluated on the matrices of a stand-in problem (constraint_matrices, nullspace and
+    the shared-memory wrapper are stand-ins): the sampling problem it hands to the samplers describes the same region -
+    every equality with its right-hand side, every inequality row with its own bounds (a row may only be left out when
+    the variable bounds alone already imply it, decided here by interval arithmetic), every variable bound, the
+    fixed-variable flags; a fixed non-zero variable becomes an equality."""
+    from ..interp import Interp
+    from .. import ndmodel
+    from ..ndmodel import NA
+
+    prog = ctx.prog
+    fns = prog.find_method(prog.cls("HRSampler"), "_HRSampler__build_problem") or prog.find_method(prog.cls("HRSampler"), "__build_problem")
+    if not fns:
+        raise AnalysisError("C16.problem: HRSampler.__build_problem not found")
+    fn = fns[0]
+
+    class _S:
+        pass
+
+    class _Obj(_S):
+        def __init__(self, **kw):
+            self.__dict__.update(kw)
+
+    class _Ctx(_S):
+        _absint_context = True
+
+        def _absint_enter(self):
+            return self
+
+        def _absint_exit(self):
+            return None
+
+    inf_ = float("inf")
+    problems: List[str] = []
+    n = 0
+    for fixed_value in (0.0, 2.5):
+        vb = [[-10.0, 10.0], [0.0, 5.0], [-3.0, 0.0], [fixed_value, fixed_value]]
+        rows = [([1.0, 0.0, 0.0, 0.0], (-inf_, 1.0)), ([-1.0, 0.0, 0.0, 0.0], (-inf_, 1.0)), ([0.0, 1.0, -0.5, 0.0], (-inf_, 0.5)), ([1.0, 1.0, 1.0, 0.0], (-2.0, 3.0)), ([0.0, 1.0, 0.0, 0.0], (-1.0, 6.0)),
+                ([0.0, -2.0, 1.0, 1.0], (-4.0, inf_))]
+        eq = [[1.0, -1.0, 0.0, 0.0]]
+        prob = _Obj(equalities=NA(eq), b=NA([0.0]), inequalities=NA([r for r, _ in rows]), bounds=NA([list(b) for _, b in rows]), variable_fixed=NA([False, False, False, True]), variable_bounds=NA(vb))
+        stubs = {k: (lambda f_: (lambda it_, ev, c, a, kw: f_(*a, **kw)))(f) for k, f in ndmodel.NUMPY.items()}
+        stubs["cobra.util.array.constraint_matrices"] = lambda it_, ev, c, a, kw: prob
+        stubs["cobra.util.constraint_matrices"] = stubs["cobra.util.array.constraint_matrices"]
+        stubs["cobra.util.array.nullspace"] = lambda it_, ev, c, a, kw: NA([[0.0] for _ in range(4)])
+        stubs["cobra.util.nullspace"] = stubs["cobra.util.array.nullspace"]
+        stubs["cobra.sampling.hr_sampler.shared_np_array"] = lambda it_, ev, c, a, kw: (a[1].copy() if isinstance(a[1], NA) else a[1])
+        stubs["cobra.sampling.hr_sampler.Problem"] = lambda it_, ev, c, a, kw: _Obj(**kw)
+        stubs["numpy.errstate"] = lambda it_, ev, c, a, kw: _Ctx()
+        helpers = [f.qualname for f in prog.all_funcs() if f.qualname.startswith("cobra.sampling.hr_sampler.") and f.parent is None and f.cls is None and f.qualname not in stubs]
+        from ..interp import ExtFunc
+
+        it = Interp(prog, (_S, NA, ndmodel.NScalar), helpers, stubs, globals_={"Problem": ExtFunc(lambda *aa, **k: _Obj(**k), "Problem")})
+        it.strict_calls = True
+        me = _Obj(model=_Obj(), feasibility_tol=1e-6)
+        what = f"HRSampler.__build_problem (a variable fixed at {fixed_value:g})"
+        try:
+            out = it.call(fn, [], {}, selfobj=me)
+        except EvalRaise as exc:
+            problems.append(f"{what} raises {exc.exc_type}")
+            continue
+        except Unknown as exc:
+            raise AnalysisError(f"C16.problem: {what} cannot be evaluated: {exc}")
+        except (ndmodel.Unsupported, TypeError, AttributeError, IndexError, ValueError) as exc:
+            raise AnalysisError(f"C16.problem: {what} uses an array operation outside the array model: {type(exc).__name__}: {exc}")
+        n += 1
+        if not isinstance(out, _Obj):
+            raise AnalysisError(f"C16.problem: {what} did not return a Problem ({type(out).__name__})")
+        lst = lambda v: v.tolist() if isinstance(v, NA) else v  # noqa: E731
+        got_rows = lst(getattr(out, "inequalities", None)) or []
+        got_b = lst(getattr(out, "bounds", None)) or []
+        if got_rows and not isinstance(got_rows[0], list):
+            got_rows = [got_rows]
+        # bounds: 2 x k (first row lower, second row upper)
+        if got_b and len(got_b) == 2 and all(isinstance(x, list) for x in got_b):
+            got_pairs = list(zip(got_b[0], got_b[1]))
+        else:
+            got_pairs = []
+        if len(got_pairs) != len(got_rows):
+            problems.append(f"{what}: {len(got_rows)} inequality rows but bounds of shape {getattr(getattr(out, 'bounds', None), 'shape', None)} (expected 2 x rows)")
+            continue
+        have = [(tuple(r), tuple(b)) for r, b in zip(got_rows, got_pairs)]
+        for r, b in rows:
+            if (tuple(r), tuple(b)) in have:
+                continue
+            lo = sum(k * (vb[j][0] if k > 0 else vb[j][1]) for j, k in enumerate(r) if k)
+            hi = sum(k * (vb[j][1] if k > 0 else vb[j][0]) for j, k in enumerate(r) if k)
+            if lo >= b[0] and hi <= b[1]:
+                continue  # implied by the variable bounds
+            problems.append(f"{what}: the constraint {b[0]} <= {r} . x <= {b[1]} (its activity ranges over [{lo:g}, {hi:g}] inside the variable bounds) is not part of the sampling problem: samples leave it, and validate() works on the same matrices")
+        for r, b in have:
+            if (list(r), tuple(b)) not in [(rr, tuple(bb)) for rr, bb in rows]:
+                problems.append(f"{what}: the sampling problem has the row {b[0]} <= {list(r)} . x <= {b[1]}, which is no constraint of the model")
+        got_vb = lst(getattr(out, "variable_bounds", None))
+        if got_vb != [[x[0] for x in vb], [x[1] for x in vb]]:
+            problems.append(f"{what}: variable bounds {got_vb!r:.120}, expected lower and upper row of {vb}")
+        if [bool(x) for x in (lst(getattr(out, "variable_fixed", None)) or [])] != [False, False, False, True]:
+            problems.append(f"{what}: the fixed-variable flags are {lst(getattr(out, 'variable_fixed', None))}")
+        want_eq, want_b = ([eq[0], [0.0, 0.0, 0.0, 1.0]], [0.0, fixed_value]) if fixed_value else (eq, [0.0])
+        if lst(getattr(out, "equalities", None)) != want_eq or lst(getattr(out, "b", None)) != want_b:
+            problems.append(f"{what}: equalities {lst(getattr(out, 'equalities', None))} = {lst(getattr(out, 'b', None))}, expected {want_eq} = {want_b}")
+        if bool(getattr(out, "homogeneous", None)) != (not fixed_value):
+            problems.append(f"{what}: homogeneous = {getattr(out, 'homogeneous', None)!r}")
+    if problems:
+        ctx.bad("C16.problem", fn, fn.node, problems[0] + (f" (+{len(problems) - 1} more)" if len(problems) > 1 else ""))
+    else:
+        ctx.ok("C16.problem", fn, "sampling problem", f"{n} problems: the matrices handed to the samplers hold every equality, every inequality row with its own bounds (or one the variable bounds imply is left out), the variable bounds and flags; a fixed non-zero variable becomes an equality (evaluated)")
+
+
 def check_bounds_eval(ctx) -> None:
     """constraint_matrices evaluated as a whole on a stand-in problem (3 variables, one of them fixed; constraints over
     every pattern of missing / negative / zero / positive / large bounds) and compared field by field with the
@@ -579,6 +688,8 @@ def run(ctx) -> None:
     ctx.rule("C16.private", "T8: the sampler works on a private copy of the model", floor=1)
     ctx.rule("C16.map", "T5: index maps and column names come from the same iteration; flux = forward - reverse", floor=6)
     ctx.rule("C16.bounds", "finite domain: constraint_matrices maps only a missing bound to infinity", floor=2)
+    ctx.rule("C16.problem", "finite evaluation on concrete arrays: __build_problem hands the samplers the region constraint_matrices describes (no constraint lost or invented)", floor=1)
+    ctx.guard(check_build_problem, ctx)
     ctx.rule("C16.random", "T4/T6: numpy's seeded global generator only; seeding before any draw", floor=5)
     ctx.rule("C16.count", "OptGP sample count rounding and bookkeeping", floor=3)
     ctx.rule("C16.warmup", "T1: warm-up steps set and reset the objective pair", floor=2)
